@@ -113,15 +113,20 @@ pub enum Symptom {
 /// Diagnosis for grouping: the deepest subtree (post-order, view positions only) that shows the
 /// symptom on its own when fed the same raw values. Returns its kind name (with window class).
 pub fn culprit(spec: &Spec, vals: &[f64], sym: Symptom) -> String {
-    fn shows(spec: &Spec, vals: &[f64], sym: Symptom) -> bool {
+    culprit_t::<f64>(spec, vals, sym)
+}
+
+/// the same diagnosis with the trees instantiated at scalar type T
+pub fn culprit_t<T: crate::dynview::Scalar>(spec: &Spec, vals: &[f64], sym: Symptom) -> String {
+    fn shows<T: crate::dynview::Scalar>(spec: &Spec, vals: &[f64], sym: Symptom) -> bool {
         let mut ctx = crate::dynview::Ctx::default();
-        let mut v = match crate::engine::try_build::<f64>(spec, &mut ctx) {
+        let mut v = match crate::engine::try_build::<T>(spec, &mut ctx) {
             Ok(v) => v,
             Err(_) => return false,
         };
         let mut ready = false;
         for x in vals {
-            if crate::engine::try_update(&mut v, *x).is_err() {
+            if crate::engine::try_update(&mut v, T::of(*x)).is_err() {
                 return sym == Symptom::Panic;
             }
             match crate::engine::try_last(&v) {
@@ -141,23 +146,23 @@ pub fn culprit(spec: &Spec, vals: &[f64], sym: Symptom) -> String {
         }
         false
     }
-    fn go(spec: &Spec, vals: &[f64], sym: Symptom) -> Option<String> {
+    fn go<T: crate::dynview::Scalar>(spec: &Spec, vals: &[f64], sym: Symptom) -> Option<String> {
         let view_kids: &[Spec] = match spec.k {
             K::Pfe | K::Eft => &spec.kids[..1],
             _ => &spec.kids[..],
         };
         for k in view_kids {
-            if let Some(c) = go(k, vals, sym) {
+            if let Some(c) = go::<T>(k, vals, sym) {
                 return Some(c);
             }
         }
-        if spec.k.arity() > 0 && shows(spec, vals, sym) {
+        if spec.k.arity() > 0 && shows::<T>(spec, vals, sym) {
             let ncls = if !spec.k.has_n() { String::new() } else if spec.n <= 3 { format!("[n={}]", spec.n) } else { "[n>3]".to_string() };
             return Some(format!("{}{}", spec.k.name(), ncls));
         }
         None
     }
-    go(spec, vals, sym).unwrap_or_else(|| "?".into())
+    go::<T>(spec, vals, sym).unwrap_or_else(|| "?".into())
 }
 
 pub fn delivered_values(sc: &Scenario, r: u8) -> Vec<f64> {
@@ -174,57 +179,47 @@ pub const MAX_NODE_INPUT: f64 = 1.0e100;
 /// MAX_NODE_INPUT. If so the run left the property's domain inside the chain (e.g. a rate of change over
 /// a base of 1e-200 is 1e202 percent, and the standard deviation of that overflows) and is not a finding.
 pub fn fed_immoderate_magnitude(spec: &Spec, vals: &[f64], sym: Symptom) -> bool {
-    fn outputs(spec: &Spec, vals: &[f64]) -> Vec<f64> {
+    fed_immoderate_magnitude_t::<f64>(spec, vals, sym, MAX_NODE_INPUT)
+}
+
+/// the same for the instantiation at scalar type T, with that type's limit (f32: squares overflow beyond 1e19)
+pub fn fed_immoderate_magnitude_t<T: crate::dynview::Scalar>(spec: &Spec, vals: &[f64], sym: Symptom, limit: f64) -> bool {
+    fn outputs<T: crate::dynview::Scalar>(spec: &Spec, vals: &[f64]) -> Vec<f64> {
         let mut ctx = crate::dynview::Ctx::default();
         let mut out = vec![];
-        let mut v = match crate::engine::try_build::<f64>(spec, &mut ctx) {
+        let mut v = match crate::engine::try_build::<T>(spec, &mut ctx) {
             Ok(v) => v,
             Err(_) => return out,
         };
         for x in vals {
-            if crate::engine::try_update(&mut v, *x).is_err() {
+            if crate::engine::try_update(&mut v, T::of(*x)).is_err() {
                 break;
             }
             match crate::engine::try_last(&v) {
-                Ok(Some(o)) => out.push(o),
+                Ok(Some(o)) => out.push(o.f()),
                 Ok(None) => {}
                 Err(_) => break,
             }
         }
         out
     }
-    fn find<'a>(spec: &'a Spec, vals: &[f64], sym: Symptom, probe: &dyn Fn(&Spec, &[f64], Symptom) -> bool) -> Option<&'a Spec> {
-        let view_kids: &[Spec] = match spec.k {
-            K::Pfe | K::Eft => &spec.kids[..1],
-            _ => &spec.kids[..],
-        };
-        for k in view_kids {
-            if let Some(c) = find(k, vals, sym, probe) {
-                return Some(c);
-            }
-        }
-        if spec.k.arity() > 0 && probe(spec, vals, sym) {
-            return Some(spec);
-        }
-        None
-    }
-    let _ = (sym, &find);
+    let _ = sym;
     // any proper subtree (view positions) whose stand-alone output leaves the moderate range feeds an
     // immoderate value to the node above it; everything downstream of that is out of domain
-    fn any_immoderate(spec: &Spec, vals: &[f64], is_root: bool, outputs: &dyn Fn(&Spec, &[f64]) -> Vec<f64>) -> bool {
+    fn any_immoderate<T: crate::dynview::Scalar>(spec: &Spec, vals: &[f64], is_root: bool, limit: f64) -> bool {
         if spec.k.arity() == 0 {
             return false;
         }
-        if !is_root && outputs(spec, vals).iter().any(|o| o.is_finite() && o.abs() > MAX_NODE_INPUT) {
+        if !is_root && outputs::<T>(spec, vals).iter().any(|o| o.is_finite() && o.abs() > limit) {
             return true;
         }
         let view_kids: &[Spec] = match spec.k {
             K::Pfe | K::Eft => &spec.kids[..1],
             _ => &spec.kids[..],
         };
-        view_kids.iter().any(|k| any_immoderate(k, vals, false, outputs))
+        view_kids.iter().any(|k| any_immoderate::<T>(k, vals, false, limit))
     }
-    any_immoderate(spec, vals, true, &outputs)
+    any_immoderate::<T>(spec, vals, true, limit)
 }
 
 /// does `spec` itself (not one of its view-position subtrees) show the symptom?
